@@ -221,7 +221,42 @@ def run(ctx):
             bad = 'a path on which state_ may be STARTING returns without start(): %s' % lib.fmt_path(evs, 8)
         ctx.check(bad is None and npth >= 1, 'R4', '%s retries start()' % fn['q'].replace(S4U, ''), where(fn), bad or '%d path(s)' % npth, key='R4|%s|retry' % fn['q'].replace(S4U, ''))
     ctx.require(nset >= 5, 'R4', 'only %d assignment setters found' % nset)
-    ctx.assume('start dates and the graph construction of the DAG loaders are not decided')
+    # ---- R6 the loaders wire every declared parent ---------------------------------------------------------------------------------------------
+    ctx.rule('R6', 'loaders: a declared parent is never dropped - JSON wires the dependencies from the complete task table (after the creation pass), DAX refuses an unknown reference', 3)
+    from .. import cg as _cg
+    jl = [f for f in P.fns.values() if f['q'].endswith('create_DAG_from_json') and f.get('blocks')]
+    if len(jl) != 1:
+        ctx.unrecognised('R6', 'create_DAG_from_json: %d definitions' % len(jl))
+    else:
+        f = jl[0]
+        v = A.view(f)
+        blk_of = lambda e: f['elems'][e.eid]['b']      # noqa: E731
+        evs_all = [e for eid in range(len(f['elems'])) for e in v.events_of(eid) if e.eid == eid]
+        creates = [e for e in evs_all if e.kind == 'call' and e.q.rsplit('::', 1)[-1] in ('init', 'sendto_init') and e.q.startswith(S4U)]
+        wires = [e for e in evs_all if e.kind == 'call' and e.q.endswith('Activity::add_successor')]
+        loops = {h['id']: _cg.natural_loop(v, h['id']) | {h['id']} for h in v.loop_heads()}
+        create_loops = [hid for hid, body in loops.items() if any(blk_of(e) in body for e in creates)]
+        # the outermost loop containing the creations is the pass over the tasks of the file
+        outer = max(create_loops, key=lambda hid: len(loops[hid])) if create_loops else None
+        inside = [e for e in wires if outer is not None and blk_of(e) in loops[outer]]
+        ctx.check(bool(creates) and bool(wires) and outer is not None and not inside, 'R6', 'create_DAG_from_json: add_successor is called after the pass that creates the tasks (a parent may be listed after its child)',
+                  where(f, inside[0].line if inside else None), 'add_successor inside the creation pass (line %s): a parent listed later in the file is not known yet and its dependency is lost' % inside[0].line if inside else
+                  '%d creation site(s), %d wiring site(s)' % (len(creates), len(wires)), key='R6|create_DAG_from_json|wiring after creation')
+    for q in ('STag_dax__parent', 'STag_dax__child'):
+        fs = [g for g in P.fns.values() if g['q'] == q and g.get('blocks')]
+        if len(fs) != 1:
+            ctx.unrecognised('R6', '%s: %d definitions' % (q, len(fs)))
+            continue
+        g = fs[0]
+        vg = A.view(g)
+        sh = set()
+        for p_ in vg.paths():
+            evs = vg.path_events(p_)
+            miss = [e.pol for e in evs if e.kind == 'branch' and e.atom[0] == 'bin' and e.atom[1] == '==' and '::end' in repr(e.atom) and 'jobs' in repr(e.atom)]
+            sh.add((tuple(miss[:1]), p_.exit))
+        ok6 = ((True,), 'throw') in sh and all(x[1] == 'throw' for x in sh if x[0] == (True,)) and any(x[0] == (False,) and x[1] in ('return', 'end') for x in sh)
+        ctx.check(ok6, 'R6', '%s: a reference to an unknown job is refused (exception), never skipped' % q, where(g), 'path shapes %s' % sorted(sh, key=repr), key='R6|%s|unknown reference' % q)
+    ctx.assume('start dates, the DOT loader (not built here) and the remaining graph construction of the loaders (file nodes of DAX, transfer sources of JSON) are not decided')
     return EXPLANATION
 
 
